@@ -7,7 +7,12 @@ Decorators that attach updater methods to the decorated function (discrete .samp
 rounded/precision .digits/.index, sorting/monotonic .index, impose_bounds .clip/.nearest) are additionally built with
 decoy settings and then brought to the configuration under test through those updaters (cfg['via']: which settings,
 in which container form - unsorted list / tuple / array, with duplicates -, optionally after a first call and after a
-first decoy update).  impose_as additionally gets masks in every shape a collapse detector can emit (pairs i<j sharing
+first decoy update; discrete sample sets of 1-8 members whose length differs from the set the decorator was built with,
+given to the decorator itself as list / tuple / array too; sorting/monotonic results also taken from the exposed
+func.sorting / func.monotonic helper).  After the update the function must satisfy every clause for the NEW settings
+(nearest member of the new set, members left alone, idempotent); an updater that raises on a list / tuple / array is
+a `raises` violation.  Whether mystic modified an object the caller handed over is only counted (extra
+'observations'): the property does not speak about it.  impose_as additionally gets masks in every shape a collapse detector can emit (pairs i<j sharing
 the first / the second member, chains, several groups, cliques, tolerance graphs; as list or as set)."""
 import copy
 import math
@@ -618,9 +623,13 @@ def run(tier='quick', seed=0):
                  'negative/several/out-of-range, input kind list/array/int-list, length 0-8, vector); distinct = '
                  '(transform, configuration, kind, length); non-trivial = the transform changed the vector. with_* '
                  'degenerate inputs (empty, zero variance/spread/sum) are excluded; documented refusals (unique '
-                 'ValueError, masked KeyError) are counted as aborted' % (len(NAMES), per),
-                 bound='%d transforms x %d cases, lengths 0..8, values in [-8,12], decorated function = identity'
-                 % (len(NAMES), per))
+                 'ValueError, masked KeyError) are counted as aborted.  For each of the %d transforms with updater '
+                 'methods (%s): %d more cases where the decorator is built with decoy settings and brought to the '
+                 'configuration through func.samples/index/type/digits/clip/nearest (list/tuple/array arguments, '
+                 'unsorted, repeated members, other length than the original set, optional call and decoy update in '
+                 'between)' % (len(NAMES), per, len(UPD), ', '.join(sorted(UPD)), per),
+                 bound='%d transforms x %d cases + %d updater-configured transforms x %d cases, lengths 0..8, values in '
+                 '[-8,12], sample sets of 1-8 members, decorated function = identity' % (len(NAMES), per, len(UPD), per))
     cases = gen_cases(seed, per)
     random.Random(seed + 1).shuffle(cases)
     size = max(1, len(cases) // 64)
